@@ -26,7 +26,8 @@ def opTrigTable (j : Json) : D Json := do
   let c ← jNat (← jField j "c")
   pure (okJson [("table", jsTable (trigTable b c)),
                 ("merged", jsTable (trigTableMerged b c)),
-                ("norm", jsNorm (trigNorm a b c))])
+                ("norm", jsNorm (trigNorm a b c)),
+                ("sources", Json.arr ((trigSources a b c).map (fun t => Json.str t.toString)).toArray)])
 
 def decPowers (j : Json) : D (List (String × Nat)) := do
   (← jArr j).mapM (fun e => do
